@@ -26,6 +26,10 @@ func (g *G) boolAttr(m M, path, key string) {
 			m[key] = "true" // the schema admits the string spelling
 			return
 		}
+		if g.chance(0.2) {
+			m[key] = false // spelled out: must survive a rendering whatever default applies to an absent key
+			return
+		}
 		m[key] = true
 	}
 }
